@@ -4,6 +4,7 @@ From VQ Require Import Model.Inventory.
 From VQ.Gen Require Import inv_simvq.
 Import ListNotations.
 Open Scope string_scope.
-Lemma pin_inv_simvq : inv_simvq =
+Definition pinned_inv_simvq : list (string * kind * bool) :=
   [("frozen_codebook", Buffer, true)].
+Lemma pin_inv_simvq : inv_simvq = pinned_inv_simvq.
 Proof. reflexivity. Qed.
